@@ -151,7 +151,7 @@ def case_from_cfg(cfg, engine="basic", system="h2o_h2", molid=(0,), **extra):
 def ref_key(case):
     return json.dumps(
         [case.get("system"), case.get("engine"), case.get("seed", 7), case.get("params", {}), case.get("k", 5), case.get("damp"), case.get("dt", 0.5),
-         case.get("temp", 300.0), case.get("reuse_P", True), case.get("remove_com"), bool(case["cad"].get("tdm", 0)), bool(case["cad"].get("na", 0)), bool(case.get("stub", True))],
+         case.get("temp", 300.0), case.get("reuse_P", True), case.get("remove_com"), bool(case["cad"].get("tdm", 0)), bool(case["cad"].get("na", 0)), bool(case.get("stub", True)), case.get("run_kwargs")],
         sort_keys=True,
     )
 
